@@ -192,6 +192,7 @@ def C09(prog: Program, run: Run, tier: str) -> None:
 def C10(prog: Program, run: Run, tier: str) -> None:
     run.add(guards.paste_eligibility(prog), "R-GUARDSEQ paste reported only behind all four eligibility guards, only on the same-CRS branch, with ttol/stol wired straight; one read_shrink")
     run.add(guards.snap_affine_guards(prog), "R-GUARDSEQ snap_affine passes rotated input through and writes components back to their slots with the right tolerances")
+    run.add(_only(rounding.rule_round(prog, {"math", "overlap"}), "math:snap_affine", "math:maybe_int", "math:snap_scale", "overlap:_pick", "overlap:compute_axis"), ROUND_DESC)
     run.add(extra.warp_detour(prog), "R-EXHAUST pixels warped into a converted array are copied back; source/destination CRS and transform come from their own geobox")
     run.add(_only(axis.rule_axis(prog, {"overlap"}), "overlap:box_overlap", "overlap:compute_axis_overlap", "overlap:_can_paste"), AXIS_DESC)
     run.floor("R-GUARDSEQ|", 12)
